@@ -71,3 +71,9 @@
     impl VpFrom<i32> for i64 { open spec fn vp_from_spec(x: i32) -> i64 { x as i64 } fn vp_from(x: i32) -> (r: i64) { x as i64 } }
     impl VpFrom<u8> for usize { open spec fn vp_from_spec(x: u8) -> usize { x as usize } fn vp_from(x: u8) -> (r: usize) { x as usize } }
     impl VpFrom<bool> for usize { open spec fn vp_from_spec(x: bool) -> usize { if x { 1usize } else { 0usize } } fn vp_from(x: bool) -> (r: usize) { if x { 1 } else { 0 } } }
+    // R13 (A-std): slice -> array reference conversion; the length match that makes `.expect` safe is a precondition here
+    #[verifier::external_body]
+    pub fn vp_as_array<const N: usize>(s: &[u8]) -> (r: &[u8; N])
+        requires s.len() == N,
+        ensures r@ == s@,
+    { <&[u8; N]>::try_from(s).expect("vp_as_array") }
